@@ -8,6 +8,9 @@ CONSTANTS
   PLabels = {"a", "b", "c"}
   PDepth = 3
   RefreshMode = "skipLocal"
+  DirAtStart = TRUE
+  PersistMkdir = TRUE
+  LoaderExact = TRUE
 INIT InitR
 NEXT NextR
 CHECK_DEADLOCK FALSE
